@@ -120,11 +120,19 @@ func mkExchange(r *Rng, ver version.Version, o exOpts) *sxg.Exchange {
 		resph.Add(randCase(r, "content-type"), "text/html; charset=utf-8")
 	}
 	for _, kv := range o.extraResp {
-		resph.Add(kv[0], kv[1])
+		if strings.HasPrefix(kv[0], "raw:") { // verbatim map key
+			resph[kv[0][4:]] = append(resph[kv[0][4:]], kv[1])
+		} else {
+			resph.Add(kv[0], kv[1])
+		}
 	}
 	if ver != version.Version1b3 {
 		for _, kv := range o.extraReq {
-			reqh.Add(kv[0], kv[1])
+			if strings.HasPrefix(kv[0], "raw:") {
+				reqh[kv[0][4:]] = append(reqh[kv[0][4:]], kv[1])
+			} else {
+				reqh.Add(kv[0], kv[1])
+			}
 		}
 	}
 	method := o.method
@@ -629,6 +637,23 @@ func genC01(r *Rng, tier string) []Case {
 		if file == nil {
 			continue
 		}
+		// read the file, edit the PARSED exchange, then verify
+		editCase := func(eds ...Sx) {
+			cs = append(cs, Case{"sxg_read_edit_verify", []Sx{B(file), L(eds...), Zi(t), Zi(0), statusTab(), ft, xt, st}})
+		}
+		editCase()
+		editCase(L(Sym("status"), Zi(404)))
+		editCase(L(Sym("status"), Zi(int64(e.ResponseStatus))))
+		editCase(L(Sym("addresp"), B([]byte("X-Injected")), B([]byte("1"))))
+		editCase(L(Sym("addresp"), B([]byte("Content-Type")), B([]byte("text/evil"))))
+		editCase(L(Sym("addreq"), B([]byte("Accept")), B([]byte("*/*"))))
+		editCase(L(Sym("method"), B([]byte("HEAD"))))
+		editCase(L(Sym("payload"), B(append(append([]byte{}, e.Payload...), 0))))
+		if len(e.Payload) > 9 {
+			p2 := append([]byte{}, e.Payload...)
+			p2[9] ^= 1
+			editCase(L(Sym("payload"), B(p2)))
+		}
 		step := 9
 		if tier == "thorough" {
 			step = 1
@@ -694,6 +719,9 @@ func genC09(r *Rng, tier string) []Case {
 				o := def()
 				o.extraReq = [][2]string{{randCase(r, h), "v"}, {"Accept", "*/*"}}
 				one(ver, o, d, d+100, "https://example.com/v", mid)
+				o = def()
+				o.extraReq = [][2]string{{"raw:" + []string{h, strings.ToUpper(h), randCase(r, h)}[r.Intn(3)], "v"}}
+				one(ver, o, d, d+100, "https://example.com/v", mid)
 			}
 			// uncached / stateful response headers in random letter case, mixed with harmless ones
 			for _, h := range []string{"connection", "keep-alive", "proxy-connection", "trailer", "transfer-encoding", "upgrade",
@@ -702,6 +730,9 @@ func genC09(r *Rng, tier string) []Case {
 				"strict-transport-security", "www-authenticate", "set-cookie3", "x-set-cookie", "te", "via", "warning"} {
 				o := def()
 				o.extraResp = append(randExtra(r, r.Intn(3)), [2]string{randCase(r, h), "v"})
+				one(ver, o, d, d+100, "https://example.com/v", mid)
+				o = def()
+				o.extraResp = [][2]string{{"raw:" + []string{h, strings.ToUpper(h), randCase(r, h)}[r.Intn(3)], "v"}}
 				one(ver, o, d, d+100, "https://example.com/v", mid)
 			}
 			// Content-Type presence
@@ -748,6 +779,15 @@ func genC09(r *Rng, tier string) []Case {
 			if r.Chance(1, 4) {
 				o.extraResp = append(o.extraResp, [2]string{"Expires", []string{"Thu, 01 Dec 1994 16:00:00 GMT", "0", ""}[r.Intn(3)]})
 			}
+			one(version.Version1b3, o, d, d+100, "https://example.com/v", mid)
+		}
+		for _, kv := range [][2]string{{"raw:cache-control", "no-store"}, {"raw:cache-control", "max-age=3"}, {"raw:expires", "0"}, {"raw:CACHE-CONTROL", "private"}} {
+			o := def()
+			o.status = []int{200, 201}[r.Intn(2)]
+			o.extraResp = [][2]string{kv}
+			one(version.Version1b3, o, d, d+100, "https://example.com/v", mid)
+			o.contentType = false
+			o.extraResp = [][2]string{kv, {"raw:content-type", "text/html"}}
 			one(version.Version1b3, o, d, d+100, "https://example.com/v", mid)
 		}
 		for _, st := range statuses {
